@@ -69,11 +69,12 @@ CHECKS = {
         'runs of any length stay related as long as no clock-reading closure (HALT, LD A,I/R) or BIT n,(HL) is executed. '
         'The C handler bodies and run loops are NOT translated: per-slot differential against the generated model and lock-step programs (48K/128K, interrupts) are checked correspondence.',
    note=TB + 'translators py2lean.py/cdispatch.py trusted, validated per slot each run; C bodies by differential execution only', ref='§8 C06'),
- 'C19': dict(cat='proof', technique='Lean 4 theorems over the model regenerated from cmiosimulator.py (generic tactic per closure) and a hand model of the delay tables (tied exhaustively) + contended-vs-plain oracle on the real simulators',
-   text='Per closure, no exclusions: contended = plain on registers/flags/memory/PC/interrupt state/port sequence (F bits 5/3 of BIT n,(HL) aside) and never fewer T-states; outside the display window every closure takes exactly the plain T-states; the window constants of CMIOSimulator.__init__ are tied to the model and proved sound and tight; '
-        'delays are sums of table entries in 0..6, zero when no address is contended; the tables follow the 6,5,4,3,2,1,0,0 pattern on the 48K/128K frame layouts (all 69888+70908 entries compared with the Python lists each run). '
-        'The per-instruction cycle breakdown itself is tied between the Python and C copies by differential execution at all phases, not proved against documentation.',
-   note=TB + 'translator validated per slot; Model/Contend.lean tied exhaustively (tables) and by correspondence (fold functions)', ref='§8 C19'),
+ 'C19': dict(cat='proof', technique='Lean 4 theorems over the model regenerated from cmiosimulator.py (generic tactic per closure), a hand model of the delay tables (tied exhaustively), and an INDEPENDENT bus-cycle specification (Spec/Z80Bus.lean: ordered memory/I-O cycles of every instruction form, written from the documented contention tables) against which the delay of every closure is proved exactly + exact-T oracle on the real contended simulators',
+   text='39 theorems. Per closure, no exclusions: contended = plain on registers/flags/memory/PC/interrupt state/port sequence (F bits 5/3 of BIT n,(HL) aside) and never fewer T-states; outside the display window every closure takes exactly the plain T-states; window constants tied, sound and tight; delay tables follow the 6,5,4,3,2,1,0,0 pattern on both frame layouts (all 69888+70908 entries). '
+        'New: delay_equals_documented_pattern — for the instruction decoded at PC (through C05\'s independent decoder), from any RInv state inside the window, T_contended = T_plain + fold of the documented wait pattern over the specification\'s cycles in order (busDelay), for every instruction; the spec\'s cycle lengths add up to the manual\'s T-states for all 7x256 opcodes and both branch outcomes (kernel-decided); '
+        'corollaries same_tstates_if_no_contended_address, delay_is_sum_in_order, io_cases, delay_equals_pattern_everywhere (all frame positions). One instruction differs from the documented pattern: the five repeat cycles of OTIR/OTDR use the pre-decrement BC (known finding bus-delay-otir-repeat-bc, pinned by a test of the suite): the documented-variant theorem carries exactly that side condition, the as-implemented variant is proved unconditionally, and otir_repeat_cycles_differ exhibits the 0-vs-18 T-state witness. '
+        'The C CPATTERN blocks are tied by the exact-T oracle and differential execution only; interrupt acceptance is excluded; single step.',
+   note=TB + 'generated Z80 models (translator validated per slot) + hand models Model/Contend, Spec/Z80Bus (written from recollection of the documented tables: its totals are checked against the ISA T-states, and it agrees with both real contended simulators on 150k cases per quick run / 1.4M thorough); independent Python oracle harness/indep/z80bus.py compared with the Lean spec each run', ref='§8 C19'),
  'C17': dict(cat='proof', technique='Lean 4 theorems (induction over digit lists, progressions, balanced push/pop sequences, syntax trees) on a text-level model of expand_macros + model/implementation correspondence + e2e oracles (ASM vs HTML vs position)',
    text='32 theorems: Python integer semantics of the operators evaluate() lets through (floor division, modulo sign, two\'s-complement bit ops), precedence parser round trip for every syntax tree, '
         '#EVAL/#N digit round trips at any base/width/sign, #FOR progression and sep/fsep join spec, #FOR = #FOREACH, #MAP lookup, snapshot stack laws (#POPS undoes #PUSHS; any balanced sequence restores memory), '
